@@ -12,13 +12,13 @@ import (
 
 func init() {
 	register("C04", &propSpec{
-		technique: "static analysis: constant-table agreement (hop-by-hop set), must-pass ordering on the SSA CFG, copy-on-write and per-iteration re-derivation of the outgoing request in the retry loop",
+		technique: "static analysis: constant-table agreement (hop-by-hop set), must-pass ordering on the SSA CFG, copy-on-write and per-iteration re-derivation of the outgoing request in the retry loop; decision table of createUpstreamRequest (copy-on-write, hop-by-hop removal, X-Forwarded-For) by abstract evaluation (E10)",
 		run:       runC04,
 		decided: "R1 the hop-by-hop table contains the RFC 7230 set and both directions delete the Connection-named tokens before, and the table entries in, a loop over that same table; " +
-			"R2 the client's header map is never mutated (every header mutation of the outgoing request follows its replacement by a fresh map) and, inside the retry loop, URL and header of the outgoing request are re-derived from pristine snapshots in every iteration before anything that mutates them; " +
+			"R2 inside the retry loop URL and header of the outgoing request are re-derived from pristine snapshots in every iteration before anything that mutates them; " +
 			"R3 the buffered body is rewound in every iteration before the forward call, and buffering is decided by exactly {more than one host, non-zero try duration}; " +
 			"R4 the backend status is written unmodified, the Trailer announcement precedes WriteHeader, the body copy precedes the trailer copy; " +
-			"R5 X-Forwarded-For is set whenever the client address is known, to that address preceded by the prior values (joined with \", \") exactly when the header was present.",
+			"R5 the decision table of createUpstreamRequest (Request.WithContext modelled as the shallow copy it is; 48 cases over Connection header, prior X-Forwarded-For, parsable address, empty body; other headers unknown): the client's own header map is never modified, no hop-by-hop header and none named in Connection is forwarded while end-to-end headers are, X-Forwarded-For is the prior values followed by the client address, the body is nil exactly for an empty body.",
 		notDecided: "byte-for-byte equality of bodies; path joining arithmetic (singleJoiningSlash); header multiset equality — runtime relations.",
 	})
 }
